@@ -80,6 +80,14 @@ func c25Body(p c25Params) func() {
 				if f.At != obs.clientOps {
 					continue
 				}
+				if f.Kind == "stall" {
+					// the server stops answering this one message (the client's write is swallowed); a fault only at writes
+					if op != "write" {
+						return ""
+					}
+					obs.injected = append(obs.injected, fmt.Sprintf("%s at client op %d (%s)", f.Kind, f.At, op))
+					return "drop"
+				}
 				obs.injected = append(obs.injected, fmt.Sprintf("%s at client op %d (%s)", f.Kind, f.At, op))
 				switch f.Kind {
 				case "restart":
@@ -111,7 +119,10 @@ func c25Body(p c25Params) func() {
 		}
 		connected := false
 		for attempt := 0; attempt < 4 && !connected; attempt++ {
-			if err := c.Connect(ctx); err != nil {
+			cctx, ccancel := context.WithTimeout(ctx, 10*time.Second) // a caller that does not wait forever for a silent server
+			err := c.Connect(cctx)
+			ccancel()
+			if err != nil {
 				obs.connectErrs = append(obs.connectErrs, err.Error())
 				time.Sleep(5 * c25Interval) // the server is reachable again by then
 				continue
@@ -254,6 +265,10 @@ func c25Scenarios(thorough bool) []driver.Scenario {
 	}
 	for at := 1; at <= n; at += 2 {
 		add(c25Params{AutoReconnect: false, Faults: []c25Fault{{at, "reset"}}})
+	}
+	// one message of the client is never answered (the server stalls on it)
+	for at := 1; at <= n; at++ {
+		add(c25Params{AutoReconnect: true, Faults: []c25Fault{{at, "stall"}}})
 	}
 	if thorough {
 		// pairs: a second fault within the 12 operations following the first
